@@ -14,12 +14,16 @@ def scenarios(tier, rng):
         for _ in range(25 if quick else 300):
             n = rng.randint(1, 4)
             fs = [("d%d/g%d.rs" % (i % 2, i), gen.cfl_file(rng, structured, rich=rng.random() < 0.6)[0]) for i in range(n)]
+            # a lock far above the generated references: the edit run never runs out of IDs
             out.append(h2.Scenario(fs, "check", structured=structured, macros=gen.MACROS_ARG,
-                                   lock=rng.choice([None, None, scen.lock_bytes(500)]), name="generated"))
+                                   lock=scen.lock_bytes(1000000), name="generated"))
         # columns in the presence of multi-byte characters, tabs, CRLF, lone CR
         tricky = ["\tinfo!(\"t\");", "/* ü☃ */ info!(\"u\");", "let s = \"\U0001F600\"; warn!(\"e\");",
                   "a();\r\n\tb(); error!(\"crlf\");\r\n", "x();\rinfo!(\"lonecr\");", "  info!(\"ls\");",
-                  "info!(\n\n   \"multi\"\n);", "ü(); info!(ref = \"bad\"; \"unusable\");"]
+                  "info!(\n\n   \"multi\"\n);", "ü(); info!(ref = \"bad\"; \"unusable\");",
+                  "info!(target: \"net\",\n\"column one\");", "info!(target: \"net\",\r\n\"column one crlf\");",
+                  "info!(\n\"message in column one\");", "info!(k = 1,\nref = 5; \"ref value in column one\");",
+                  "info!(\nk = v; \"kv in column one\");", "\ninfo!(\"statement in column one\");"]
         for t in tricky:
             out.append(h2.Scenario([("t.rs", t.encode("utf-8"))], "check", structured=structured, name="tricky"))
         out.append(h2.Scenario([("ok.rs", wrap_fn([stmt(msg="a", ref=1)]).encode()), ("bad.rs", b"\xff info!(\"x\");")],
